@@ -68,7 +68,7 @@ type Harness struct {
 	Concurrent   bool     `json:"concurrent"`
 	// counterexamples cannot be reproduced natively (virtual clock): confirmed by engine re-execution
 	EngineConfirm bool `json:"engine_confirm"`
-	Vacuity      bool     `json:"vacuity"` // twin whose assert(false) must be violated
+	Vacuity       bool `json:"vacuity"` // twin whose assert(false) must be violated
 }
 
 type Unit struct {
